@@ -37,6 +37,21 @@ fn main() {
             };
             driver::determinism(&list, n, seed)
         }
+        Some("selftest-dump") => {
+            // reference models rendered for fixed inputs; tools/selftest.py compares them with Python's standard library
+            let instants: Vec<u64> = vec![0, 1, 59, 86_399, 86_400, 951_782_400, 951_868_800, 1_700_000_000, 2_147_483_647, 4_102_444_800, 13_569_465_600, 253_402_300_799, 253_370_764_800, 68_256, 1_078_099_200, 4_107_542_400];
+            let dates: Vec<(u64, String)> = instants.iter().map(|t| (*t, props::c03::imf_fixdate(*t))).collect();
+            let mut macs = Vec::new();
+            for alg in [256u16, 384, 512] {
+                for key in ["", "k", "secret", &"k".repeat(64), &"k".repeat(65), &"k".repeat(129), &"k".repeat(200)] {
+                    for msg in ["", "a.b", "eyJhbGciOiJIUzI1NiJ9.e30"] {
+                        macs.push((alg, key.to_string(), msg.to_string(), client::hex(&props::c12::hmac(alg, key.as_bytes(), msg.as_bytes()))));
+                    }
+                }
+            }
+            println!("{}", serde_json::json!({"dates": dates, "hmac": macs}));
+            0
+        }
         Some("one") => {
             // debugging aid: run one seed-mode run in-process and print the record
             let prop = args.get(1).cloned().unwrap_or_default();
